@@ -242,6 +242,9 @@ func c09Run(c jCase) (V, Verdict) {
 			v = Fail(sig, fmt.Sprintf("peer %d %s", pi, what))
 		}
 	}
+	if sig, what := log.projFailure(); sig != "" && v.OK {
+		v = Fail(sig, what)
+	}
 	if v.OK {
 		v.NonTrivial = descs >= 2 && total >= 2
 		v.Class = fmt.Sprintf("peers%d/descs%d/compared%d", c.Peers, min(descs, 5), min(total/4*4, 16))
